@@ -153,6 +153,7 @@ def tlc_mc(name, module, cfg, workers=None, timeout=1800, xmx="8g", env=None, re
 
 
 _rej_re = re.compile(r'<<"REJECT", (\d+), (\d+)')
+_tag_re = re.compile(r'<<"(MODEL-DRIFT|SPEC-ERROR|UNCOVERED|UNDECIDED)", (\d+), (\d+)')
 
 
 def tlc_trace(name, module, cfg, trace, timeout=1800, xmx="3g", env=None):
@@ -167,7 +168,7 @@ def tlc_trace(name, module, cfg, trace, timeout=1800, xmx="3g", env=None):
     e = dict(os.environ, TRACE=trace)
     if env:
         e.update({k: str(v) for k, v in env.items()})
-    res = dict(ok=False, rejects=[], events=0, error=None, log=logp, notes=[])
+    res = dict(ok=False, rejects=[], events=0, error=None, log=logp, tags={})
     t0 = time.time()
     try:
         p = subprocess.run(["timeout", str(timeout)] + cmd, cwd=SPEC, env=e, stdout=subprocess.PIPE,
@@ -183,8 +184,9 @@ def tlc_trace(name, module, cfg, trace, timeout=1800, xmx="3g", env=None):
         if m:
             res["rejects"].append((int(m.group(1)), int(m.group(2))))
             continue
-        if line.startswith('<<"NOTE"'):
-            res["notes"].append(line)
+        m = _tag_re.search(line)
+        if m:
+            res["tags"].setdefault(m.group(1), []).append(int(m.group(3)))
             continue
         m = _states_re.search(line)
         if m:
@@ -356,6 +358,7 @@ class Run:
         self.extra = {}
         self.tool_errors = []
         self.assumptions = []
+        self.tags = {}
 
     def add_mc(self, name, res):
         self.mc.append(dict(name=name, generated=res["generated"], distinct=res["distinct"], wall_s=res["wall_s"],
@@ -375,6 +378,10 @@ class Run:
             self.tool_errors.append("%s: %s (see %s)" % (name, r["error"], r["log"]))
             return 0
         self.events += r["events"]
+        for tag, cases in r["tags"].items():
+            self.tags[tag] = self.tags.get(tag, 0) + len(set(cases))
+            if tag == "SPEC-ERROR":
+                self.tool_errors.append("%s: specification cross-check failed on case(s) %s of %s" % (name, sorted(set(cases))[:5], trace))
         bad_cases = []
         for (_, c) in r["rejects"]:
             if c not in bad_cases:
@@ -428,7 +435,9 @@ class Run:
                    traces_validated_against_impl=self.traces, samples=self.samples or ["(no sample)"],
                    rule=rule,
                    trace_events=self.events, model_checking_runs=self.mc, exhaustive=exhaustive,
-                   known_findings_seen=self.v.known, tool_errors=self.tool_errors, notes=self.v.notes)
+                   known_findings_seen=self.v.known, tool_errors=self.tool_errors, notes=self.v.notes,
+                   model_drift=self.tags.get("MODEL-DRIFT", 0), undecided=self.tags.get("UNDECIDED", 0),
+                   uncovered=self.tags.get("UNCOVERED", 0))
         if extra_cov:
             cov.update(extra_cov)
         cov.update(self.extra)
@@ -436,6 +445,9 @@ class Run:
             write_evidence(self.prop, self.tier, self.seed, cov, self.assumptions, time.time() - self.t0, nviol)
         for te in self.tool_errors:
             log("TOOL-ERROR: " + te)
+        for tag in ("MODEL-DRIFT", "UNDECIDED", "UNCOVERED"):
+            if self.tags.get(tag):
+                log("%s: %d case(s) (reported, not a verdict)" % (tag, self.tags[tag]))
         if nviol:
             return 1
         if self.tool_errors:
